@@ -1,0 +1,41 @@
+//go:build verif
+
+package types
+
+// Contracts checked by /verif/govc (comment-only file; build tag verif).
+
+// ---------------------------------------------------------------------------
+// auth proxy binds (C07, C18)
+
+// every bind has a name (they are created as "_auth_<port>")
+//@ spec func authProxyNamed(f *Frontend) bool = f != nil && forall k int :: 0 <= k && k < len(f.AuthProxy.BindList) ==>
+//@     f.AuthProxy.BindList[k] != nil && f.AuthProxy.BindList[k].AuthBackendName != ""
+
+//@ func (*Frontend).AcquireAuthBackendName
+//@   trusted
+//@   requires named: authProxyNamed(f)
+//@   modifies f.*, objects("[]*AuthProxyBind")
+//@   ensures nonempty: result.1 == nil ==> result.0 != ""
+//@   ensures named:    authProxyNamed(f)
+//@ end
+
+//@ func (*Frontend).RemoveAuthBackendExcept
+//@   trusted
+//@   requires named: authProxyNamed(f)
+//@   modifies f.*, objects("[]*AuthProxyBind")
+//@   ensures named:  authProxyNamed(f)
+//@ end
+
+// creates or finds the backend of an external auth service; touches only the
+// backend collection and backend/endpoint objects
+//@ func (*Backends).AcquireAuthBackend
+//@   trusted
+//@   modifies objects("Backends"), objects("Backend"), objects("Endpoint"), objects("map[string]*Backend"), objects("[]map[string]*Backend"), objects("[]*Endpoint"), objects("[]bool"), objects("[]string"), objects("map[int]bool")
+//@   ensures nonnil: result != nil
+//@   ensures paths:  forall b *Backend :: old(allocated(b)) ==> b.Paths == old(b.Paths)
+//@ end
+
+//@ func (*Backends).BuildUsedAuthBackends
+//@   trusted
+//@   modifies nothing
+//@ end
